@@ -23,7 +23,7 @@ func (e *Eng) Loops(fn *ssa.Function) []*Loop {
 	byHeader := map[int]*Loop{}
 	for _, b := range fn.Blocks {
 		for _, s := range b.Succs {
-			if s.Dominates(b) { // back edge b -> s
+			if dominates(s, b) { // back edge b -> s
 				l := byHeader[s.Index]
 				if l == nil {
 					l = &Loop{Fn: fn, Header: s, Blocks: map[int]bool{s.Index: true}}
@@ -197,6 +197,11 @@ type AppendPart struct {
 }
 
 func (e *Eng) AppendParts(v ssa.Value) (bases []ssa.Value, parts []AppendPart) {
+	return e.AppendPartsUnder(nil, v)
+}
+
+// AppendPartsUnder is AppendParts restricted to the phi edges and variable stores reached by r.
+func (e *Eng) AppendPartsUnder(r *Reached, v ssa.Value) (bases []ssa.Value, parts []AppendPart) {
 	seen := map[ssa.Value]bool{}
 	var rec func(v ssa.Value)
 	rec = func(v ssa.Value) {
@@ -212,18 +217,26 @@ func (e *Eng) AppendParts(v ssa.Value) (bases []ssa.Value, parts []AppendPart) {
 			rec(x.X)
 			return
 		case *ssa.Phi:
-			for _, ed := range x.Edges {
-				rec(ed)
+			for i, ed := range x.Edges {
+				if r == nil || r.Edge[[2]int{x.Block().Preds[i].Index, x.Block().Index}] {
+					rec(ed)
+				}
 			}
 			return
 		case *ssa.UnOp:
 			if a, ok := x.X.(*ssa.Alloc); ok && x.Op == token.MUL {
-				vals, esc := e.boxValues(a)
-				if !esc && len(vals) > 0 {
-					for _, s := range vals {
-						rec(s)
+				sts, esc := e.boxStores(a)
+				if !esc && len(sts) > 0 {
+					n := 0
+					for _, st := range sts {
+						if r == nil || r.Instr[st] {
+							n++
+							rec(st.Val)
+						}
 					}
-					return
+					if n > 0 {
+						return
+					}
 				}
 			}
 		case *ssa.Call:
